@@ -361,6 +361,14 @@ VARIANTS = [
     {"name": "P R10 scheduler compares the creator proxy with None", "file": SCHED, "expect": "silent",
      "old": "            if task_data.scope & lifetime_mask:\n",
      "new": "            if task_data.creator is not None and task_data.scope & lifetime_mask:\n"},
+    {"name": "R10 scheduler compares creators by class through the proxy", "file": SCHED, "expect": "C07.R10",
+     "old": "            if creator and creator == task_data.creator:\n",
+     "new": "            if creator and type(creator) is task_data.creator.__class__ and creator == task_data.creator:\n"},
+    {"name": "P R10 scheduler dereferences the proxy under a ReferenceError handler", "file": SCHED, "expect": "silent",
+     "old": "            if task_data.scope & lifetime_mask:\n                task.cancel()\n",
+     "new": "            if task_data.scope & lifetime_mask:\n                try:\n"
+            "                    owner = task_data.creator.__class__.__name__\n                except ReferenceError:\n"
+            "                    owner = 'a dead addon'\n                task.cancel(msg=owner)\n"},
     # ------------------------------------------------------------------ P2 loop-closure (structlint)
     {"name": "P2 async wrapper closes over the loop variables again (5f8d112 reverted)", "file": EVENTS, "expect": "C07.P2",
      "old": '                async def _run_handler_wrapper(handler=handler, inner_args=inner_args, kwargs=kwargs):\n', "new": "                async def _run_handler_wrapper():\n"},
